@@ -1,4 +1,3 @@
-import functools as ft
 import inspect
 import json
 from typing import Any, Callable, Dict, Iterable, List, Optional
@@ -46,13 +45,9 @@ class PydanticValidator(base.BaseValidator):
         """
 
         signature = self.signature(method, tuple(exclude))
-        try:
-            hash(signature)
-        except TypeError:
-            # a signature holding an unhashable default (``tags: List[str] = []``) can't be a cache key
-            schema = self.build_validation_schema.__wrapped__(self, signature)
-        else:
-            schema = self.build_validation_schema(signature)
+        # (not cached by signature: signatures compare by value, so ``x=1``, ``x=True`` and ``x=1.0`` of different methods
+        # would share one schema, and a signature holding an unhashable default can't be a cache key at all)
+        schema = self.build_validation_schema(signature)
 
         # string (postponed) annotations are resolved in the namespace of the method's module
         params_model = pydantic.create_model(
@@ -69,7 +64,6 @@ class PydanticValidator(base.BaseValidator):
 
         return {attr: getattr(obj, attr) for attr in obj.model_fields} if self._coerce else bound_params.arguments
 
-    @ft.lru_cache(maxsize=None)
     def build_validation_schema(self, signature: inspect.Signature) -> Dict[str, Any]:
         """
         Builds pydantic model based validation schema from method signature.
